@@ -3,7 +3,7 @@ from ..rules import topology, delivery, flow
 from .common import declare
 
 RULES = ['FANOUT', 'EMIT-SIG', 'PASS-VALUE', 'FIFO-END', 'SWAP-ATOMIC', 'FLUSH-RESETS', 'STATE-PER-INSTANCE', 'FRESH-READ', 'REVERSED-STACK', 'FLAT-RETURN', 'PROPAGATE', 'NONE-SENTINEL', 'ELEMENT-MEMBERSHIP', 'EAGER-UPDATE', 'NONE-BOUND', 'DESTROY-SUPER']
-FLOORS = {'FANOUT': 4, 'EMIT-SIG': 30, 'PASS-VALUE': 14, 'FIFO-END': 10, 'SWAP-ATOMIC': 6, 'FLAT-RETURN': 20, 'PROPAGATE': 30, 'NONE-BOUND': 1, 'DESTROY-SUPER': 3}
+FLOORS = {'FANOUT': 4, 'EMIT-SIG': 30, 'PASS-VALUE': 14, 'FIFO-END': 10, 'SWAP-ATOMIC': 6, 'FLAT-RETURN': 20, 'PROPAGATE': 30, 'DESTROY-SUPER': 3}     # (NONE-BOUND: no floor - the hazard need not exist; its positive example is the seeded mutant c01-unique-truncates-with-none-bound, run by the thorough tier)
 CATALOGUE = ('Stream', 'map', 'starmap', 'filter', 'accumulate', 'slice', 'partition', 'partition_unique',
              'sliding_window', 'unique', 'flatten', 'pluck', 'collect', 'union', 'zip', 'combine_latest', 'zip_latest')
 
